@@ -65,6 +65,27 @@
   UNSUBSCRIBE: the broker-level sends of `syncUnsubscribe` offered to
     the queues (UNSUBSCRIBED or ERROR no_such_subscription first)      C01_unsubscribe_realm
 
+  EVERY REACHABLE REALM (`Realm.Reachable cfg r`; proofs in Nexus/L2/Proofs/WpAEvo.lean, WpARealm.lean,
+  WpABkC01.lean — added by work package A)
+
+  in every reachable realm: `BrokerInv r.broker`, the session table is
+    coherent, every member of every subscription is an attached client   C01_reachable_realm
+  a PUBLISH / SUBSCRIBE / UNSUBSCRIBE from an attached client whose
+    handler is free and which the authorizer allows IS the handler call
+    of the realm-level theorems; a refused one never reaches the broker  C01_step_publish, C01_step_subscribe,
+                                                                         C01_step_unsubscribe, C01_step_denied
+  all clauses of a PUBLISH together, for a reachable realm, with
+    `Expected` in its coherent reading and the hypotheses stated on the
+    configuration                                                        C01_publish_reachable
+  "stable id", history level: after any steps a subscription is an old
+    one (same id, topic, policy) or has an id above every id handed out
+    before; an id never denotes another (topic, policy); a deleted id is
+    never handed out again; the same per realm input                     C01_id_never_reused, C01_id_stable,
+                                                                         C01_id_stable_between,
+                                                                         C01_id_not_reused_after_delete, C01_id_stable_realm
+  the publication handed to the broker (`pubOf`) has no `topic` /
+    publisher key among its payload-passthru details; exclude_me reading  C01_pubOf_base, C01_event_topic_realm
+
   Explicit assumption: the subscription id generator does not wrap (`nextSub : Nat`; the 2^53 wrap
   of `wamp.IDGen` is not modelled).  Interpretation recorded: an `eligible`/`exclude` list without
   any valid entry imposes nothing (that is what the code does).
@@ -74,6 +95,8 @@
 import Nexus.L2.Proofs.BrokerDeliver
 import Nexus.L2.Proofs.BrokerBase
 import Nexus.L2.Proofs.RealmPublish
+import Nexus.L2.Proofs.WpARealm
+import Nexus.L2.Proofs.WpABkC01
 
 namespace Nexus.C01
 open Nexus.L2 Gen.N
@@ -535,5 +558,256 @@ theorem C01_unsubscribe_realm (r : Realm) (s : Session) (req sub : Nat) :
   refine ⟨heq, ?_, ?_, by rw [heq]; exact (brokerStep_frame r _ _ _).2.2.1⟩
   · intro k c hk hc; rw [heq]; exact brokerStep_queue r _ _ _ k c hk hc
   · intro k hk; rw [heq]; exact brokerStep_queue_other r _ _ _ k hk
+
+/-! ### every reachable realm (work package A)
+
+  `Realm.Reachable cfg r` (Nexus/L2/Proofs/RealmInv.lean): `r` is obtained from `Realm.create cfg` by
+  external inputs, each run to quiescence (`Realm.step`).  The theorems below discharge, for such
+  `r`, the hypotheses under which the broker-level and handler-level theorems above are stated. -/
+
+open Realm in
+/-- In every reachable realm the broker satisfies `BrokerInv` (so `C01_delivery_exact`,
+    `C01_subscribe_stable_id`, `C01_unsub_others_untouched` apply to `r.broker`), the session table
+    `r.session?` is coherent (so `C01_expected_coherent` applies), and every member of every
+    subscription is an attached client, found in the client table and in the session table under its
+    own key: "the sessions that hold a subscription" are all attached sessions of this realm. -/
+theorem C01_reachable_realm {cfg : Config} {r : Realm} (h : Realm.Reachable cfg r) :
+    BrokerInv r.broker ∧ SessCoherent r.session? ∧
+    ∀ s ∈ r.broker.subs, ∀ k ∈ s.members,
+      (∃ c, r.client? k = some c ∧ c.key = k) ∧ (∃ c, r.session? k = some c ∧ c.key = k) :=
+  WpA.reachable_realm h
+
+/-- a concrete reachable realm: history on prefix "a.", session 1 attached and subscribed to "a.b" -/
+def exCfg : Config := { history := [("a.", "prefix", 2)] }
+def exR0 : Realm := (Realm.create exCfg).getD {}
+theorem exR0_create : Realm.create exCfg = some exR0 := by
+  have h : (Realm.create exCfg).isSome = true := by decide +kernel
+  unfold exR0
+  cases hc : Realm.create exCfg with
+  | none => rw [hc] at h; cases h
+  | some r => rfl
+def exR : Realm :=
+  ((exR0.step (.join 1 false [("authid", .str "u")] [("subscriber", ["publisher_identification"])] 8)).2.step
+    (.msg 1 (.subscribe 1 [] "a.b"))).2
+theorem exR_reachable : Realm.Reachable exCfg exR := .step _ (.step _ (.init exR0_create))
+
+example : exR.broker.subs.map (fun s => (s.id, s.topic, s.members)) = [(1, "a.", []), (2, "a.b", [1])] := by
+  decide +kernel
+
+open Realm in
+/-- The message switch.  A PUBLISH / SUBSCRIBE / UNSUBSCRIBE received from the attached client `k`
+    (client record `s`), whose handler is not ending and not busy in the yield retry loop, and which
+    the authorizer lets through, IS the call of the handler the realm-level theorems above are about
+    (`stepOp` is the first half of `Realm.step`; the rest is the draining of internal tasks). -/
+theorem C01_step_publish (r : Realm) (k : SessKey) (s : Session) (req : Nat) (opts : Dict) (topic : String)
+    (args : List WVal) (kw : Dict)
+    (hc : r.client? k = some s) (he : r.ending.contains k = false) (hb : r.busy k = false)
+    (ha : (authzGate r s (.publish req opts topic args kw)).1 = true) :
+    r.stepOp (.msg k (.publish req opts topic args kw)) = handlePublish r s req opts topic args kw :=
+  WpA.stepOp_msg_dispatch r k s _ hc he hb ha
+
+open Realm in
+theorem C01_step_subscribe (r : Realm) (k : SessKey) (s : Session) (req : Nat) (opts : Dict) (topic : String)
+    (hc : r.client? k = some s) (he : r.ending.contains k = false) (hb : r.busy k = false)
+    (ha : (authzGate r s (.subscribe req opts topic)).1 = true) :
+    r.stepOp (.msg k (.subscribe req opts topic)) = handleSubscribe r s req opts topic :=
+  WpA.stepOp_msg_dispatch r k s _ hc he hb ha
+
+open Realm in
+theorem C01_step_unsubscribe (r : Realm) (k : SessKey) (s : Session) (req sub : Nat)
+    (hc : r.client? k = some s) (he : r.ending.contains k = false) (hb : r.busy k = false)
+    (ha : (authzGate r s (.unsubscribe req sub)).1 = true) :
+    r.stepOp (.msg k (.unsubscribe req sub)) = handleUnsubscribe r s req sub :=
+  WpA.stepOp_msg_dispatch r k s _ hc he hb ha
+
+open Realm in
+/-- … and a message the authorizer refuses never reaches the broker: the state is `r` after the
+    authorizer's (at most one) ERROR reply; broker and publication counter are untouched. -/
+theorem C01_step_denied (r : Realm) (k : SessKey) (s : Session) (m : Msg)
+    (hc : r.client? k = some s) (he : r.ending.contains k = false) (hb : r.busy k = false)
+    (ha : (authzGate r s m).1 = false) :
+    r.stepOp (.msg k m) = (authzGate r s m).2 ∧
+    (r.stepOp (.msg k m)).broker = r.broker ∧ (r.stepOp (.msg k m)).pubCount = r.pubCount := by
+  have h := WpA.stepOp_msg_denied r k s m hc he hb ha
+  have q := WpA.quiet_authzGate r s m
+  exact ⟨h, by rw [h]; exact q.broker, by rw [h]; exact q.pubCount⟩
+
+open Realm in
+/-- non-vacuity: in the example realm session 1 is attached, not ending, not busy, and (no authorizer
+    configured) every message passes the gate -/
+example : ∃ s, exR.client? 1 = some s ∧ exR.ending.contains 1 = false ∧ exR.busy 1 = false ∧
+    (authzGate exR s (.publish 7 [] "a.b" [] [])).1 = true := by
+  have h : (exR.client? 1).isSome = true := by decide +kernel
+  cases hc : exR.client? 1 with
+  | none => rw [hc] at h; cases h
+  | some s =>
+    refine ⟨s, rfl, by decide +kernel, by decide +kernel, ?_⟩
+    have hcfg : exR.cfg.authz = none := by decide +kernel
+    unfold authzGate; rw [hcfg]
+
+open Realm in
+/-- PUBLISH in a reachable realm, all clauses together.  Let `r` be reachable, `k` an attached
+    client (record `s`) whose handler is free, the PUBLISH allowed by the authorizer, the topic valid
+    for the realm's strictness, payload passthru and `disclose_me` not refused.  With
+    `p := pubOf r s opts topic args kw` (publisher `k`, id `pubBase + r.pubCount`) and
+    `evs := (r.broker.syncPublish r.session? r.now p).2`:
+    * the input is handled as `C01_publish_ack` says;
+    * `Expected` reads: `s'` is a subscription of the realm matching the topic under its policy, `k'` is
+      a member, attached as `c`, `k'` is not the publisher `k` unless `exclude_me` is the bool false,
+      and `k'` is not ruled out by the options; every member of every subscription IS attached;
+    * `evs` are exactly the expected EVENTs, each expected pair exactly once, nothing else;
+    * every attached client's queue is its old queue offered, in order, its part of `evs` and (for the
+      publisher, iff acknowledged) PUBLISHED with the same publication id. -/
+theorem C01_publish_reachable {cfg : Config} {r : Realm} (h : Realm.Reachable cfg r)
+    (k : SessKey) (s : Session) (req : Nat) (opts : Dict) (topic : String) (args : List WVal) (kw : Dict)
+    (hc : r.client? k = some s) (he : r.ending.contains k = false) (hb : r.busy k = false)
+    (ha : (authzGate r s (.publish req opts topic args kw)).1 = true)
+    (hv : validUri cfg.strict "" topic = true) (hp : pptRefused s opts = false)
+    (hd : (opts.optFlag OptDiscloseMe && !cfg.allowDisclose) = false) :
+    r.stepOp (.msg k (.publish req opts topic args kw)) =
+      ({ r with pubCount := r.pubCount + 1,
+                broker := (r.broker.syncPublish r.session? r.now (pubOf r s opts topic args kw)).1 } : Realm).deliver
+        ((r.broker.syncPublish r.session? r.now (pubOf r s opts topic args kw)).2 ++
+          ackList opts ⟨k, .published req (pubBase + r.pubCount)⟩) ∧
+    (pubOf r s opts topic args kw).publisher = k ∧
+    (pubOf r s opts topic args kw).pubId = pubBase + r.pubCount ∧
+    ((pubOf r s opts topic args kw).excludePub = false ↔ opts.get? OptExcludeMe = some (.bool false)) ∧
+    (∀ s' k' c, Expected r.broker r.session? (pubOf r s opts topic args kw) s' k' c ↔
+        s' ∈ r.broker.subs ∧ s'.matchesTopic topic = true ∧ k' ∈ s'.members ∧ r.session? k' = some c ∧
+        ¬(k' = k ∧ (pubOf r s opts topic args kw).excludePub = true) ∧ ¬ ruledOut opts (sidOf k') c.details) ∧
+    (∀ s' ∈ r.broker.subs, ∀ k' ∈ s'.members, ∃ c, r.session? k' = some c ∧ c.key = k') ∧
+    (∀ x ∈ (r.broker.syncPublish r.session? r.now (pubOf r s opts topic args kw)).2,
+        ∃ s' k' c, Expected r.broker r.session? (pubOf r s opts topic args kw) s' k' c ∧
+          x = ⟨k', expectedEvent (pubOf r s opts topic args kw) s' c⟩) ∧
+    (∀ s' k' c, Expected r.broker r.session? (pubOf r s opts topic args kw) s' k' c →
+        through (r.broker.syncPublish r.session? r.now (pubOf r s opts topic args kw)).2 k' s'.id =
+          [⟨k', expectedEvent (pubOf r s opts topic args kw) s' c⟩]) ∧
+    (∀ k' id, (¬ ∃ s' c, s'.id = id ∧ Expected r.broker r.session? (pubOf r s opts topic args kw) s' k' c) →
+        through (r.broker.syncPublish r.session? r.now (pubOf r s opts topic args kw)).2 k' id = []) ∧
+    (∀ k', (¬ ∃ s' c, Expected r.broker r.session? (pubOf r s opts topic args kw) s' k' c) →
+        ∀ x ∈ (r.broker.syncPublish r.session? r.now (pubOf r s opts topic args kw)).2, x.to ≠ k') ∧
+    (∀ k' c, k' ≠ metaKey → r.client? k' = some c →
+      (r.stepOp (.msg k (.publish req opts topic args kw))).queueOf k' =
+        accept c.cap (r.queueOf k')
+          (msgsTo k' ((r.broker.syncPublish r.session? r.now (pubOf r s opts topic args kw)).2 ++
+            ackList opts ⟨k, .published req (pubBase + r.pubCount)⟩))) := by
+  obtain ⟨hbi, hco, hmem⟩ := C01_reachable_realm h
+  obtain ⟨f1, _, f3, _, _, _⟩ := WpA.flags_const h
+  have hk : s.key = k := (client?_mem hc).2
+  subst hk
+  have hv' : validUri r.broker.strict "" topic = true := by rw [f3]; exact hv
+  have hd' : discloseRefused r opts = false := by unfold discloseRefused; rw [f1]; exact hd
+  have hstep := C01_step_publish r s.key s req opts topic args kw hc he hb ha
+  obtain ⟨a1, a2, a3, _⟩ := C01_publish_ack r s req opts topic args kw hv' hp hd'
+  obtain ⟨d1, d2, d3, d4⟩ := C01_delivery_exact hbi r.session? r.now (pubOf r s opts topic args kw)
+  refine ⟨hstep.trans a2, rfl, rfl, ?_, ?_, ?_, d1, d2, d3, d4, ?_⟩
+  · show (match opts.get? OptExcludeMe with | some (.bool b) => b | _ => true) = false ↔ _
+    split
+    · rename_i b hb'; rw [hb']; constructor
+      · intro e; rw [e]
+      · intro e; cases e; rfl
+    · rename_i hne
+      constructor
+      · intro e; cases e
+      · intro e; exact absurd e (hne false)
+  · intro s' k' c
+    exact C01_expected_coherent hco _ s' k' c
+  · intro s' hs' k' hk'
+    exact (hmem s' hs' k' hk').2
+  · intro k' c hk' hc'
+    rw [hstep]
+    exact a3 k' c hk' hc'
+
+open Realm in
+/-- non-vacuity of the remaining hypotheses for the example realm -/
+example : validUri exCfg.strict "" "a.b" = true ∧
+    (Dict.optFlag ([] : Dict) OptDiscloseMe && !exCfg.allowDisclose) = false ∧
+    ∀ s, pptRefused s [] = false := by
+  refine ⟨by decide +kernel, by decide +kernel, fun s => ?_⟩
+  unfold pptRefused
+  have : (pptScheme [] != "") = false := by decide +kernel
+  rw [this]; rfl
+
+/-! ### subscription ids over whole histories (work package A) -/
+
+/-- History-level stability of subscription ids.  From any broker state satisfying the invariant,
+    after ANY sequence of steps: every subscription is either an old one (same id, same topic, same
+    policy) or carries an id greater than every id handed out before (`nextSub`). -/
+theorem C01_id_never_reused {b : Broker} (hb : BrokerInv b) (steps : List BStep) :
+    ∀ s' ∈ (b.run steps).subs,
+      (∃ s ∈ b.subs, s'.id = s.id ∧ s'.topic = s.topic ∧ s'.«match» = s.«match») ∨ b.nextSub < s'.id :=
+  WpA.C01_id_never_reused hb steps
+
+/-- … hence the id generator never goes back and, as long as an id denotes a subscription, it denotes
+    the same (topic, policy). -/
+theorem C01_id_stable {b : Broker} (hb : BrokerInv b) (steps : List BStep) :
+    b.nextSub ≤ (b.run steps).nextSub ∧
+    ∀ s ∈ b.subs, ∀ s' ∈ (b.run steps).subs, s'.id = s.id →
+      s'.topic = s.topic ∧ s'.«match» = s.«match» :=
+  WpA.C01_id_stable hb steps
+
+/-- … between any two moments of a history -/
+theorem C01_id_stable_between {b : Broker} (hb : BrokerInv b) (steps1 steps2 : List BStep) :
+    ∀ s ∈ (b.run steps1).subs, ∀ s' ∈ (b.run (steps1 ++ steps2)).subs, s'.id = s.id →
+      s'.topic = s.topic ∧ s'.«match» = s.«match» :=
+  WpA.C01_id_stable_between hb steps1 steps2
+
+/-- … and once its subscription has been deleted an id is never handed out again. -/
+theorem C01_id_not_reused_after_delete {b : Broker} (hb : BrokerInv b) (steps1 steps2 steps3 : List BStep)
+    {s : Sub} (hs : s ∈ (b.run steps1).subs)
+    (hgone : ∀ s2 ∈ (b.run (steps1 ++ steps2)).subs, s2.id ≠ s.id) :
+    ∀ s3 ∈ (b.run (steps1 ++ steps2 ++ steps3)).subs, s3.id ≠ s.id :=
+  WpA.C01_id_not_reused_after_delete hb steps1 steps2 steps3 hs hgone
+
+/-- non-vacuity (see Nexus/L2/Proofs/WpABkC01.lean for the evaluated history): subscribe "t" → id 1,
+    unsubscribe → deleted, subscribe "t" again → id 2 -/
+example : ∃ s ∈ (({} : Broker).run WpA.exSteps1).subs, s.id = 1 ∧
+    ∀ s2 ∈ (({} : Broker).run (WpA.exSteps1 ++ WpA.exSteps2)).subs, s2.id ≠ s.id := by
+  have h1 : (({} : Broker).run WpA.exSteps1).subs.map (·.id) = [1] := by decide
+  have h2 : (({} : Broker).run (WpA.exSteps1 ++ WpA.exSteps2)).subs.map (·.id) = [] := by decide
+  have hm : 1 ∈ (({} : Broker).run WpA.exSteps1).subs.map (·.id) := by rw [h1]; simp
+  obtain ⟨s, hs, hid⟩ := List.mem_map.mp hm
+  refine ⟨s, hs, hid, ?_⟩
+  intro s2 hs2
+  have : s2.id ∈ (({} : Broker).run (WpA.exSteps1 ++ WpA.exSteps2)).subs.map (·.id) := List.mem_map.mpr ⟨s2, hs2, rfl⟩
+  rw [h2] at this
+  cases this
+
+/-- The same for realms: one external input (run to quiescence) takes a reachable realm's broker
+    through some broker steps, so every subscription after it is an old one with the same id, topic
+    and policy, or has a fresh id; by induction along `Realm.Reachable` this covers whole realm
+    histories. -/
+theorem C01_id_stable_realm {cfg : Config} {r : Realm} (h : Realm.Reachable cfg r) (op : Realm.Op) :
+    (∀ s' ∈ (r.step op).2.broker.subs,
+      (∃ s ∈ r.broker.subs, s'.id = s.id ∧ s'.topic = s.topic ∧ s'.«match» = s.«match») ∨
+        r.broker.nextSub < s'.id) ∧
+    r.broker.nextSub ≤ (r.step op).2.broker.nextSub := by
+  obtain ⟨steps, hb, _⟩ := (WpA.evo_step r op).run
+  have hbi := (C01_reachable_realm h).1
+  rw [hb]
+  exact ⟨C01_id_never_reused hbi steps, (C01_id_stable hbi steps).1⟩
+
+/-! ### the publication the realm hands to the broker -/
+
+open Realm in
+/-- `pubOf` — the publication `handlePublish` hands to the broker (`C01_publish_ack`) — carries
+    payload-passthru details WITHOUT `topic` and without publisher keys (so the side condition of
+    `C01_event_topic` holds for it, not just for a look-alike expression), and excludes the publisher
+    unless `exclude_me` is the bool false. -/
+theorem C01_pubOf_base (r : Realm) (s : Session) (opts : Dict) (topic : String) (args : List WVal) (kw : Dict) :
+    (∀ key, key = "topic" ∨ isPublisherKey key →
+        (pubOf r s opts topic args kw).baseDetails.get? key = none) ∧
+    ((pubOf r s opts topic args kw).excludePub = false ↔ opts.get? OptExcludeMe = some (.bool false)) :=
+  WpA.C01_pubOf_base r s opts topic args kw
+
+/-- hence, for the publication actually handed over: EVENT details carry `topic = the published topic`
+    exactly for pattern-based subscriptions -/
+theorem C01_event_topic_realm (r : Realm) (s : Session) (opts : Dict) (topic : String) (args : List WVal) (kw : Dict)
+    (sub : Sub) (c : Session) :
+    ((eventDetails (Realm.pubOf r s opts topic args kw) sub.isPattern (some c)).get? "topic" = some (.str topic) ↔
+        sub.isPattern = true) ∧
+    (sub.isPattern = false →
+      (eventDetails (Realm.pubOf r s opts topic args kw) sub.isPattern (some c)).get? "topic" = none) :=
+  C01_event_topic (Realm.pubOf r s opts topic args kw) sub c ((C01_pubOf_base r s opts topic args kw).1 "topic" (Or.inl rfl))
 
 end Nexus.C01
